@@ -54,6 +54,17 @@ Definition rcase_model_ok (c : rcase) : bool :=
 Definition rcase_prop_ok (c : rcase) : bool :=
   value_eqb (scrub (rc_v1 c)) (scrub (rc_v2 c)) && str_eqb (rc_out1 c) (rc_out2 c).
 
+(* ---------------------------------------------------------------- 1b. parse, then redact: from the argument string
+   forwarder.ParseUserinfo / forwarder.ParseHostPortUser on two argument strings that differ only in the
+   password, each result rendered by its redact function (None: the parser refused the argument). *)
+Record pcase := { pc_kind : N; pc_arg1 : str; pc_arg2 : str; pc_out1 : option str; pc_out2 : option str }.
+Definition parse_redact (k : N) (arg : str) : option str :=
+  if N.eqb k 1 then option_map (fun ui => redact_userinfo (Some ui)) (parse_userinfo arg)
+  else option_map (fun h => redact_hpu (Some h)) (parse_hpu arg).
+Definition pcase_model_ok (c : pcase) : bool :=
+  ostr_eqb (parse_redact (pc_kind c) (pc_arg1 c)) (pc_out1 c) && ostr_eqb (parse_redact (pc_kind c) (pc_arg2 c)) (pc_out2 c).
+Definition pcase_prop_ok (c : pcase) : bool := ostr_eqb (pc_out1 c) (pc_out2 c).
+
 (* ---------------------------------------------------------------- 2. DescribeFlags on the real run command
    The changed flags (sorted by name) of the real `forwarder run` flag set after parsing arguments
    that differ only in the secrets; OneLine and Plain output of FlagsDescriber. *)
